@@ -163,6 +163,7 @@ def run(ctx, rep):
     from .C07 import past_hash_cleared_rule
     past_hash_cleared_rule(P, rep, 'R-C10-7')
     empty_disk_rule(P, rep)
+    empty_disk_search_rule(P, rep, 'R-C10-8s')
 
 
 # written member -> restored member, when the two sides legitimately use different names
@@ -732,3 +733,42 @@ def empty_disk_rule(P, rep, rid='R-C10-8'):
         rep.check(k in tested, rid, 'fs_is_empty looks at disk->%s' % k, (tested[k] if k in tested else wc[k]).loc(),
                   'tested before a disk is declared empty' if k in tested else 'the writer saves the elements of disk->%s but fs_is_empty ignores that collection: a disk that holds only such elements loses its mapping and all of them at the next save' % k,
                   function='fs_is_empty', construct='disk->%s' % k)
+
+
+def empty_disk_search_rule(P, rep, rid):
+    """second half of fs_is_empty: with no files, links or directories left a disk is still not empty while an extent (of deleted
+    blocks) begins below blockmax -- those blocks must be saved, the next sync still has to remove them from the parity.  The search
+    comparator is interpreted over blockmax 0..5 x extents [pos, pos+count): it must answer "found" (0) exactly when pos < blockmax
+    and otherwise steer the search to smaller positions (negative)."""
+    from .. import comparators as CM
+    f = P.fn('fs_is_empty')
+    rep.analysed(f)
+    rep.rule(rid, 'fs_is_empty: the extent search reports an extent iff it begins below blockmax (blockmax 0..5 x position 0..5 x count 1..3), else searches towards smaller positions', 1)
+    cs = list(f.calls('tommy_tree_search_compare'))
+    if len(cs) != 1 or f.strip(cs[0].ops[1])[0] != 'f':
+        raise AnalysisBroken('fs_is_empty: extent search not recognised')
+    cf = f.strip(cs[0].ops[1])[1]
+    g = P.fn(cf)
+    rep.analysed(g)
+    argstruct = None
+    for i in g.all_insts():
+        if i.op == 'alloca' and i.vty and 'struct' in i.vty and 'snapraid_extent' not in i.vty:
+            argstruct = i.vty.replace('const ', '').replace('struct ', '').rstrip('*').strip()
+    al = CM.field_offsets(P, argstruct) if argstruct else {}
+    ol = CM.field_offsets(P, 'snapraid_extent')
+    if len(al) != 1 or not ol:
+        raise AnalysisBroken('fs_is_empty: argument struct of %s not recognised (%s)' % (cf, argstruct))
+    key = list(al)[0]
+    bad = None; n = 0
+    for bm in range(0, 6):
+        for pos in range(0, 6):
+            for cnt in (1, 2, 3):
+                try:
+                    r, _ = CM.run_cmp(P, cf, {key: bm}, {'parity_pos': pos, 'count': cnt, 'file_pos': 0, 'file': 0}, al, ol)
+                except (CM.KernelViolation, CM.Unsupported) as e:
+                    raise AnalysisBroken('cannot interpret %s: %s' % (cf, e))
+                n += 1
+                ok = (r == 0) if pos < bm else (r < 0)
+                if not ok and bad is None:
+                    bad = 'blockmax %d, extent [%d,%d): comparator returns %d, expected %s -- a disk whose only content is a deleted extent reaching the end of the used range is declared empty, its DELETED blocks are dropped by the next save and the pending parity update is forgotten' % (bm, pos, pos + cnt, r, '0 (found)' if pos < bm else 'negative')
+    rep.check(bad is None, rid, '%s: found iff the extent begins below blockmax' % cf, g.file, '%d evaluations' % n if bad is None else bad, function=cf, construct='empty search predicate')
